@@ -180,8 +180,21 @@ func (sc scen) run() {
 	}
 	start("A", 1, 60, sc.events)
 	if sc.two {
-		start("B", 2, 72, sc.events)
+		start("B", 2, 72, other(sc.events))
 	}
+}
+
+// other: the same script on the neighbouring key (device B uses different key codes than device A)
+func other(evs []*input.InputEvent) []*input.InputEvent {
+	var r []*input.InputEvent
+	for _, e := range evs {
+		name := "KEY_S"
+		if e.Event.Code == evdev.KEYFromString["KEY_S"] {
+			name = "KEY_A"
+		}
+		r = append(r, key(name, e.Event.Value))
+	}
+	return r
 }
 
 func outputs(x *vsched.Execution, chNibble byte) []string {
@@ -272,6 +285,7 @@ func scenarios(tier string) []scen {
 			scen{name: "openrgb connected, octave change + release", events: []*input.InputEvent{key("KEY_A", 1), key("KEY_F2", 1), key("KEY_A", 0)}, rgb: true},
 			scen{name: "no-openrgb, panic with a key held", events: []*input.InputEvent{key("KEY_A", 1), key("KEY_ESC", 1)}, midiIn: true},
 			scen{name: "two devices, press and release", events: []*input.InputEvent{key("KEY_A", 1), key("KEY_A", 0)}, two: true, noEarlyTimers: true},
+			scen{name: "two devices, two keys held at disconnect each", events: two, two: true, noEarlyTimers: true, dBound: -2},
 		)
 	}
 	return s
@@ -357,7 +371,7 @@ func main() {
 				in := make(chan *input.InputEvent)
 				vsched.Go("deviceB", func() { dev.ProcessEvents(in) })
 				vsched.Go("feederB", func() {
-					for _, e := range sc.events {
+					for _, e := range other(sc.events) {
 						vsched.Out[*input.InputEvent](in).Send(e)
 					}
 					vsched.CloseBidi(in)
